@@ -189,3 +189,41 @@ def run_spellings(rep, tier):
     finally:
         ws.close()
     return [], fails
+
+
+def run_dup_spellings(rep, tier):
+    """C05: two sources of one unnamed type that is written in two ways are still two sources of one type"""
+    ws = Workspace()
+    fails = []
+    try:
+        cases = []
+        for i, (a, b, val, _) in enumerate(SPELLINGS):
+            if a == b:
+                continue
+            val = "&ab{}" if val == "ab{}" else val
+            for form in ("direct", "nested", "arg"):
+                pkg = "ds%d%s" % (i, form[0])
+                d = ws.root + "/" + pkg
+                os.makedirs(d)
+                open(d + "/t.go", "w").write(
+                    "package %s\n\ntype ab struct{}\n\nfunc (*ab) A() {}\n\nfunc (*ab) B() {}\n\ntype Other struct{}\n\ntype C struct{}\n\n"
+                    "func ProvideA() %s { return %s }\n\nfunc ProvideB() %s { return %s }\n\nfunc NewOther() Other { return Other{} }\n\n"
+                    "func NewC(x %s, o Other) C { return C{} }\n" % (pkg, a, val, b, val, a))
+                body = {"direct": "func Init() C {\n\tpanic(wire.Build(ProvideA, ProvideB, NewOther, NewC))\n}\n",
+                        "nested": "var Set = wire.NewSet(ProvideA, NewOther)\n\nfunc Init() C {\n\tpanic(wire.Build(Set, ProvideB, NewC))\n}\n",
+                        "arg": "var Set = wire.NewSet(ProvideA, NewOther)\n\nfunc Init(x %s) C {\n\tpanic(wire.Build(Set, NewC))\n}\n" % b}[form]
+                open(d + "/wire.go", "w").write("//go:build wireinject\n// +build wireinject\n\npackage %s\n\nimport \"github.com/google/wire\"\n\n%s" % (pkg, body))
+                cases.append((pkg, a, b, form))
+        results = ws.wire_many([["gen", "./" + c[0]] for c in cases], timeout=120)
+        for (pkg, a, b, form), (rc, out, err) in zip(cases, results):
+            rep.evaluations += 1
+            rep.nontrivial.add("dupspell/" + pkg)
+            if panicked(err):
+                fails.append({"stream": "c05-spellings", "why": ["wire panicked: " + err[-300:]], "package": pkg})
+            elif rc == 0 or "multiple bindings" not in err or ws.read(pkg) is not None:
+                fails.append({"stream": "c05-spellings", "package": pkg, "wire_gen.go": (ws.read(pkg) or "")[:1500],
+                              "why": ["two sources of one type, written %s and %s (%s): wire %s: %s" % (
+                                  a, b, form, "accepts and generates" if rc == 0 else "reports no multiple-bindings error", err.strip()[-300:])]})
+    finally:
+        ws.close()
+    return [], fails
